@@ -23,7 +23,7 @@ pub fn def() -> PropDef {
 }
 
 fn streams(t: Tier) -> Vec<StreamDef> {
-    vec![st("grid", t.n(39 * 16 * 8, 39 * 16 * 64, 80, 39 * 16 * 2), true), st("random", t.n(30_000, 1_500_000, 60, 8_000), false), st("reveal_any", t.n(40_000, 2_000_000, 80, 10_000), false)]
+    vec![st("grid", t.n(39 * 16 * 8, 39 * 16 * 64, 80, 39 * 16 * 2), true), st("random", t.n(30_000, 1_500_000, 60, 8_000), false), st("reveal_any", t.n(40_000, 2_000_000, 80, 10_000), false), st("giant", t.n(12, 96, 0, 12), false)]
 }
 
 fn floors(t: Tier) -> Vec<(String, u64)> {
@@ -41,6 +41,7 @@ fn floors(t: Tier) -> Vec<(String, u64)> {
         ("reveal.agree.ok".into(), 2000),
         ("reveal.agree.err".into(), 2000),
         ("reveal.wrong_key".into(), 1000),
+        ("hide.giant".into(), 10),
     ]
 }
 
@@ -204,6 +205,28 @@ fn run(ctx: &mut Ctx) {
             judge_hide(ctx, &c);
         }
         "reveal_any" => judge_reveal(ctx),
+        "giant" => {
+            // block counts at and beyond 2^12 and 2^16 (hide accepts any length padding)
+            let blocks = *ctx.rng.pick(&[4_095usize, 4_096, 4_097, 65_535, 65_536, 65_537, 65_540]);
+            let a = val::avp_kind(&mut ctx.rng, (ctx.idx % 39) as usize, 40);
+            let plen = senc::payload(&a).len();
+            // plaintext length (before alignment padding) = 16*(blocks-1) + 1..16
+            let target = 16 * (blocks - 1) + 1 + ctx.rng.below(16) as usize;
+            let lp = ctx.rng.bytes(target - 2 - plen);
+            let mut ap = [0u8; 16];
+            ap.copy_from_slice(&ctx.rng.bytes(16));
+            let mut rv = [0u8; 4];
+            rv.copy_from_slice(&ctx.rng.bytes(4));
+            let c = HideCase { a, secret: val::secret(&mut ctx.rng), rv, lp, ap };
+            ctx.rep.bucket("hide.giant");
+            judge_hide(ctx, &c);
+            // and the reference's own output must be revealed identically by the crate
+            let v = shide::hide(c.a.attr, &senc::payload(&c.a), &c.secret, &c.rv, &c.lp, &c.ap);
+            match exec::reveal(exec::hidden_exact(c.a.attr, &v), &c.secret, c.rv) {
+                Out::Ok(b) if b == c.a => ctx.rep.bucket("reveal.giant.ok"),
+                other => ctx.violate("C12:reveal-giant", format!("a hidden value of {} blocks built per RFC 2661 4.3 reveals as {}", v.len() / 16, out_str(&other)), c.witness()),
+            }
+        }
         _ => unreachable!(),
     }
 }
